@@ -69,6 +69,7 @@ let rec nat_of_int i = if i = 0 then O else S (nat_of_int (i - 1))
 (* ---- observation records ---- *)
 type winst = { wf : int; wtid : int; wq : int list; wstore : (int * (int * int * int)) list; whits : int option; wmisses : int option }
 
+let fst3 (a, _, _) = a
 let entry_sizes : (int * int * int, int) Hashtbl.t = Hashtbl.create 256    (* (f, key, enc) -> estimated size *)
 
 let parse_w line =
@@ -137,6 +138,9 @@ let () =
   let inval_seen = ref false in
   let pending_call : (int * int * call_in * (key * res) option) option ref = ref None in   (* f, world index, input, asked_inv *)
   let stored_at : (int * int * int, int) Hashtbl.t = Hashtbl.create 64 in
+  (* virtual time of the store that produced the entry now held for (f, instance, key): the entry's birth
+     according to the HISTORY, independent of the birth time the implementation keeps *)
+  let stored_time : (int * int * int, int) Hashtbl.t = Hashtbl.create 64 in
   let used_at : (int * int * int, int) Hashtbl.t = Hashtbl.create 64 in
   let hits_since : (int * int * int, int) Hashtbl.t = Hashtbl.create 64 in
   let prev_inst : (int * int, winst) Hashtbl.t = Hashtbl.create 64 in       (* last snapshot of every instance *)
@@ -278,6 +282,36 @@ let () =
            let post_store = (match this_inst with Some wi -> wi.wstore | None -> []) in
            let gone = List.filter (fun (k, _) -> k <> x && not (List.mem_assoc k post_store)) prev_store in
            let cfgc = fn.w.w_cfg in
+           (* "stored and then served": what the store decision of the wrapper (M2) says, observed on the
+              implementation.  [settled]: nothing else can remove or refuse the new entry at once — no
+              memory pressure on a policy that may pick the newest entry, the value fits *)
+           let fits = (match cfgc.maxmem with None -> true | Some m -> size <= int_of_n m) in
+           let newest_survives = fn.fl = "a" || cfgc.pol = FIFO || cfgc.pol = LRU || (cfgc.maxmem = None && cfgc.limit = None) in
+           let unexpired_before =
+             (match List.assoc_opt x prev_store, cfgc.ttl with
+              | None, _ -> false
+              | Some _, None -> true
+              | Some (_, _, born), Some t ->
+                let born = (try Hashtbl.find stored_time (f, itid, x) with Not_found -> born) in
+                let t = int_of_n t and nowi = int_of_n now in
+                (if fn.fl = "a" then nowi / 1000 - born / 1000 else (nowi - born) / 1000) < t) in
+           let decision = impl_store_decision fn okb cifb in
+           if (has "err" && fn.w.w_result && not fn.w.w_cache_if) || (has "cif" && fn.w.w_cache_if) then begin
+             let what = if fn.w.w_cache_if then "cif" else "err" in
+             if exec > 0 && decision && fits && newest_survives then
+               (match stored_after with
+                | Some (v, _, _) when v = int_of_n (enc body) -> ()
+                | _ -> fail what (Printf.sprintf "f%d x=%d: a result that is to be cached (%s) is not stored after the call" f x
+                                    (if fn.w.w_cache_if then "predicate true" else "Ok")));
+             if exec > 0 && (not decision) && not fn.w.w_inval_on then
+               (match stored_after with
+                | Some (v, _, _) when v = int_of_n (enc body) && not (List.mem_assoc x prev_store && fst3 (List.assoc x prev_store) = v) ->
+                  fail what (Printf.sprintf "f%d x=%d: a result that must not be cached (%s) is stored" f x
+                               (if fn.w.w_cache_if && not cifb then "predicate false" else "Err"))
+                | _ -> ());
+             if exec > 0 && unexpired_before && not fn.w.w_inval_on then
+               fail what (Printf.sprintf "f%d x=%d: the body ran although an unexpired entry for these arguments was stored" f x)
+           end;
            if has "limit" then begin
              (match cfgc.limit with
               | Some l ->
@@ -304,17 +338,36 @@ let () =
                 if exec > 0 && size > int_of_n m && List.mem_assoc x post_store then
                   fail "mem" (Printf.sprintf "f%d x=%d: a value of %d bytes alone exceeds max_memory %d but is cached" f x size (int_of_n m));
                 if exec > 0 && size > int_of_n m && gone <> [] then
-                  fail "mem" (Printf.sprintf "f%d x=%d: an oversize value displaced %d other entries" f x (List.length gone))
+                  fail "mem" (Printf.sprintf "f%d x=%d: an oversize value displaced %d other entries" f x (List.length gone));
+                (* never while it already fits: without limit and ttl, entries other than x disappear on a
+                   store only if the survivors plus the new value would not fit *)
+                if exec > 0 && size <= int_of_n m && gone <> [] && cfgc.limit = None && cfgc.ttl = None then begin
+                  let sz (k, (v, _, _)) = (try Hashtbl.find entry_sizes (f, k, v) with Not_found -> 0) in
+                  let others = List.filter (fun (k, _) -> k <> x) prev_store in
+                  let before = List.fold_left (fun acc e -> acc + sz e) 0 others in
+                  (* whichever entry went last, it was needless if even the largest one could have stayed *)
+                  let largest_gone = List.fold_left (fun acc e -> max acc (sz e)) 0 gone in
+                  let after = before - List.fold_left (fun acc e -> acc + sz e) 0 gone in
+                  if before + size <= int_of_n m then
+                    fail "mem" (Printf.sprintf "f%d x=%d: %d entries were evicted although everything fits (%d + %d <= %d)" f x (List.length gone) before size (int_of_n m))
+                  else if after + size + largest_gone <= int_of_n m then
+                    fail "mem" (Printf.sprintf "f%d x=%d: eviction went on after the total fitted (%d entries gone, %d + %d + %d <= %d)"
+                                  f x (List.length gone) after size largest_gone (int_of_n m))
+                end
               | None -> ())
            end;
            if has "ttl" then begin
              (match cfgc.ttl, List.assoc_opt x prev_store with
               | Some t, Some (_, _, born) ->
+                let born = (try Hashtbl.find stored_time (f, itid, x) with Not_found -> born) in
                 let t = int_of_n t and nowi = int_of_n now in
                 let age_s = if fn.fl = "a" then nowi / 1000 - born / 1000 else (nowi - born) / 1000 in
                 if age_s >= t && exec = 0 then fail "ttl" (Printf.sprintf "f%d x=%d: entry of age %ds served with ttl %d" f x age_s t);
                 if age_s < t && exec > 0 && not fn.w.w_inval_on then
-                  fail "ttl" (Printf.sprintf "f%d x=%d: entry of age %ds recomputed with ttl %d" f x age_s t)
+                  fail "ttl" (Printf.sprintf "f%d x=%d: entry of age %ds recomputed with ttl %d" f x age_s t);
+                (* with invalidate_on: an unexpired entry must at least be found and shown to the check *)
+                if age_s < t && exec > 0 && fn.w.w_inval_on && invlog = "-" then
+                  fail "ttl" (Printf.sprintf "f%d x=%d: entry of age %ds (ttl %d) was not found by the lookup: the check was not consulted and the body ran" f x age_s t)
               | _ -> ())
            end;
            if has "order" && (cfgc.pol = FIFO || cfgc.pol = LRU) && gone <> [] && exec > 0 then begin
@@ -369,7 +422,8 @@ let () =
            (* update the history stamps *)
            (if exec = 0 then Hashtbl.replace used_at (f, itid, x) !evidx
             else if List.mem_assoc x post_store then begin
-              Hashtbl.replace used_at (f, itid, x) !evidx; Hashtbl.replace stored_at (f, itid, x) !evidx end);
+              Hashtbl.replace used_at (f, itid, x) !evidx; Hashtbl.replace stored_at (f, itid, x) !evidx;
+              Hashtbl.replace stored_time (f, itid, x) (int_of_n now) end);
            if has "iso" then check_frame "iso" [(f, itid)] instances;
            if has "stats" && fn.fl <> "t" && not fn.w.w_inval_on then begin
              let (h, m) = (try Hashtbl.find exp_stats f with Not_found -> (0, 0)) in
@@ -624,7 +678,7 @@ let () =
          let (w, ix) = build_world fns in
          world := w; index := ix; verdict := None; evidx := 0; skip := false; fails := [];
          Hashtbl.reset seen_calls; Hashtbl.reset last_body; nontrivial := false;
-         Hashtbl.reset prev_inst; Hashtbl.reset exp_stats; inval_seen := false; pending_call := None; Hashtbl.reset stored_at; Hashtbl.reset used_at; Hashtbl.reset hits_since;
+         Hashtbl.reset prev_inst; Hashtbl.reset exp_stats; inval_seen := false; pending_call := None; Hashtbl.reset stored_at; Hashtbl.reset stored_time; Hashtbl.reset used_at; Hashtbl.reset hits_since;
          ev := []; rline := []; ws := []
        | "E" :: rest -> ev := rest
        | "R" :: rest -> rline := (match rest with "call" :: r -> r | r -> r)
